@@ -71,6 +71,10 @@ THEOREMS = [
     "HappyModel.C09.tpool_no_task_lost",
     "HappyModel.C09.tpool_fifo_ledger",
     "HappyModel.C09.tpool_head_not_grantable",
+    "HappyModel.C09.bulkhead_trace_satisfies_spec",
+    "HappyModel.C09.preempt_trace_satisfies_spec",
+    "HappyModel.C09.tpool_trace_satisfies_spec",
+    "HappyModel.C09.tpool_trace_satisfies_spec_drained",
 ]
 
 import happysimulator.components.industrial.preemptible_resource  # noqa: E402,F401
